@@ -65,6 +65,10 @@ def drivers(tier='quick'):
     sp = dict(starts=['a'], nodes=['x0', 'x1', 'y0', 'y1'], edges=[], incompat=[],
               choices=[['X0', 'a', ['x0', 'x1']], ['X1', 'a', ['y0', 'y1']]], cc=[['LINKED', ['X0', 'X1']]])
     d.append(('linked', sp))
+    # LINKED follower (gets no variable) in front of a conditional choice: variable position != choice position
+    d.append(('forced_before_cond', dict(starts=['a'], nodes=['x0o0', 'x0o1', 'x1o0', 'x1o1', 'zo0', 'zo1'], edges=[], incompat=[],
+                                         choices=[['X0', 'a', ['x0o0', 'x0o1']], ['X1', 'a', ['x1o0', 'x1o1']], ['Z', 'x0o1', ['zo0', 'zo1']]],
+                                         cc=[['LINKED', ['X0', 'X1']]])))
     # forced choice
     d.append(('forced', dict(starts=['s0'], nodes=['n1', 'n2', 'n3'], edges=[], incompat=[],
                              choices=[['C0', 's0', ['n1']], ['C1', 'n1', ['n2', 'n3']]])))
